@@ -380,6 +380,24 @@ TTextIx ==
          /\ Len(E.sets) = Cardinality(LS) /\ LS = ES
          /\ \A k \in DOMAIN E.sets : NoDup(E.sets[k].ids)
 
+\* Persisted state of an inverted index (integer, float, string, string array), read from its bucket: one entry
+\* per key that some stored document yields (numbers: the value; strings: the value folded under the index's
+\* declared case sensitivity; arrays: every element), holding exactly the nodes of those documents.
+KeysOf(doc, p) ==
+  LET t == S[p].type  v == IxOf(S, doc, p)
+  IN  CASE t \in {"integer", "float"} -> {v}
+        [] t = "string" -> {Norm(S, U, p, v)}
+        [] t = "stringArray" -> {Norm(S, U, p, v[i]) : i \in DOMAIN v}
+        [] OTHER -> {}
+TInvIx ==
+  /\ IsEvent("InvIx") /\ Obs
+  /\ LET H  == {i \in DOMAIN pts : HasIx(S, pts[i], E.p)}
+         K  == UNION {KeysOf(pts[i], E.p) : i \in H}
+         EX == {[r |-> k, ids |-> {nodeOf[i] : i \in {j \in H : k \in KeysOf(pts[j], E.p)}}] : k \in K}
+         LG == {[r |-> E.ents[x].r, ids |-> AsSet(E.ents[x].ids)] : x \in DOMAIN E.ents}
+     IN  /\ Len(E.ents) = Cardinality(LG) /\ LG = EX
+         /\ \A x \in DOMAIN E.ents : NoDup(E.ents[x].ids)
+
 \* What-if trials (C07): the batch is tried on a copy of the database under an
 \* injected fault / kill; Fork saves the model state, Restore brings it back.
 TFork ==
@@ -458,7 +476,7 @@ TQuiet == IsEvent("Quiet") /\ Obs
 
 TraceNext ==
   \/ TReset \/ TFault \/ TInsert \/ TInsertRace \/ TWriteRace \/ TUpdate \/ TDelete \/ TFork \/ TRestore \/ TCrash
-  \/ TCount \/ TGet \/ TFilter \/ TFlat \/ TVamana \/ TVamanaPair \/ TFlatPair \/ TCSearch \/ TErrKnown \/ TErrKnownStale \/ TText \/ TTextRepeat \/ TGraph \/ TVecKeys \/ TTextIx \/ TQuiet
+  \/ TCount \/ TGet \/ TFilter \/ TFlat \/ TVamana \/ TVamanaPair \/ TFlatPair \/ TCSearch \/ TErrKnown \/ TErrKnownStale \/ TText \/ TTextRepeat \/ TGraph \/ TVecKeys \/ TTextIx \/ TInvIx \/ TQuiet
 
 TraceSpec == TraceInit /\ [][TraceNext]_vars
 
